@@ -229,13 +229,23 @@ class Ref:
         nodes = sorted(self.declared)
         out = []
         for lab, pred in labels:
+            adj = {}
+            for a, b, K in self.edges:
+                if pred(K):
+                    adj.setdefault(a, []).append(b)
+                    adj.setdefault(b, []).append(a)
             rep = {}
-            for v in nodes:
+            for v in nodes:  # ascending, so the first node of a component is its least member
                 if v in rep:
                     continue
-                cls = [w for w in nodes if self._conn(pred, v, w)]
-                for w in cls:
-                    rep[w] = min(cls)
+                rep[v] = v
+                todo = [v]
+                while todo:
+                    x = todo.pop()
+                    for y in adj.get(x, ()):
+                        if y not in rep:
+                            rep[y] = v
+                            todo.append(y)
             out.append(lab + ":" + ",".join(f"{v}={rep[v]}" for v in nodes))
         return "|".join(out)
 
@@ -423,8 +433,43 @@ def call_sites(ctx):
             named = dict(leaf=leaf, leaf2=leaf2, leaf3=leaf3, leaf4=leaf4, leaf5=leaf5, pe_leaf=pe_leaf, tr=tr,
                          c2=c2, c3=c3, c4=c4, other=other, caller=caller)
             keyids_by_name = {}
+            # a random tail of scheduling operations over the same families
+            leafs = [x for x in (leaf, leaf2, leaf3, leaf4, leaf5, other) if x is not None]
+            callers = [(x, nm) for x, nm in ((caller, "leaf"), (c2, "leaf2"), (c3, "leaf2"), (c4, "leaf4"), (cY, "other"))
+                       if x is not None]
+            rng = ctx.rng
+            for step in range(ctx.scale(12, 60)):
+                r = rng.random()
+                if r < 0.2:
+                    x = rng.choice(leafs)
+                    y = attempt("rand:rename", lambda: S.rename(x, f"leaf_r{step}"))
+                    if y is not None:
+                        leafs.append(y)
+                elif r < 0.3:
+                    x = rng.choice(leafs)
+                    y = attempt("rand:simplify", lambda: S.simplify(x))
+                    if y is not None:
+                        leafs.append(y)
+                elif r < 0.55:
+                    x, fld = rng.choice(leafs), rng.choice(["x", "y"])
+                    y = attempt("rand:write_config", lambda: S.write_config(x, x.find("tmp = _").after(), Cfg, fld, "tmp"))
+                    if y is not None:
+                        leafs.append(y)
+                elif r < 0.63:
+                    a, b = rng.choice(leafs), rng.choice(leafs)
+                    attempt("rand:unsafe_assert_eq", lambda: a.unsafe_assert_eq(b))
+                elif r < 0.7:
+                    x = rng.choice(leafs)
+                    y = attempt("rand:partial_eval", lambda: x.partial_eval(4))
+                    if y is not None:
+                        attempt("rand:call_eqv.new_origin", lambda: S.call_eqv(callers[0][0], f"{callers[0][1]}(_, _)", y))
+                else:
+                    (cv, nm), tgt = rng.choice(callers), rng.choice(leafs)
+                    y = attempt("rand:call_eqv", lambda: S.call_eqv(cv, f"{nm}(_, _)", tgt))
+                    if y is not None:
+                        callers.append((y, tgt.name()))
             # all-pairs queries through the module itself (recorded as history ops)
-            plist = list(keep)
+            plist = list(keep)[:22]
             for a in plist:
                 for b in plist:
                     try:
@@ -453,7 +498,8 @@ def call_sites(ctx):
         sched.get_strictest_eqv_proc = orig["strictest"]
 
     ev = dict(events)
-    info = {"events": events, "ops": len(hist), "procs": len(ids), "fields": {str(k): v for k, v in keyids.items()}}
+    info = {"events": events, "ops": len(hist), "procs": len(ids), "fields": {str(k): v for k, v in keyids.items()},
+            "recorded_calls": {t: sum(1 for op in hist if op[0] == t) for t in "drasgc"}}
     ctx.extra["call_sites"] = info
     replay = {"kind": "call_sites", "history": hist, "orders": orders, "real_outs": real_outs, "events": events}
     # expectations about the scenario itself (what the property says about the call sites)
@@ -471,7 +517,7 @@ def call_sites(ctx):
         return None
 
     ids_of = {nm: ids[id(p._loopir_proc)] for nm, p in named.items() if p is not None and id(p._loopir_proc) in ids}
-    kx, ky = keyids_by_name.get("CfgA_x"), keyids_by_name.get("CfgA_y")
+    kx, ky = keyids_by_name.get("CfgA_x", "<CfgA_x>"), keyids_by_name.get("CfgA_y", "<CfgA_y>")
     want = {("leaf", "leaf2"): "S1:", ("leaf", "leaf3"): f"S1:{kx}", ("leaf", "leaf4"): f"S1:{kx},{ky}",
             ("leaf", "pe_leaf"): "S0:", ("leaf", "other"): "S1:", ("caller", "tr"): "S0:", ("caller", "c2"): "S1:",
             ("caller", "c4"): f"S1:{kx},{ky}"}
@@ -558,13 +604,13 @@ def run(ctx):
 
     # 2. correspondence ------------------------------------------------------------------
     if hists is None:
-        n = ctx.scale(300, 2500)
+        n = ctx.scale(600, 8000)
         hists = []
         for i in range(n):
             if ctx.quick:
                 nops = ctx.rng.choice([6, 12, 20, 30, 40])
             else:
-                nops = ctx.rng.choice([8, 20, 40, 40, 80, 120])
+                nops = ctx.rng.choice([8, 20, 40, 40, 80, 120, 200])
             hists.append(gen_history(ctx.rng, nops, ctx.rng.randrange(0, 7)))
         # a few fixed shapes: diamond through an assert, late first mention after a long chain
         hists.append([["d", 1], ["r", 1, 2, [4]], ["r", 1, 3, [5]], ["a", 3, 2, []], ["c", 1, 2, []], ["s", 1, 2]])
